@@ -1,6 +1,9 @@
 """C18 — NetCDF export/import is lossless and keeps every label attached to its data.
 
 check():  (1) Properties/C18.v theorems + Print Assumptions;
+          (1b) tie (B): harness/py2coq_io.py executes the CURRENT io.py symbolically (fail closed) into a description
+              (build/C18/GenIo.v) and coq/Bridge/IoBridge.v re-proves that its meaning (Model/IoDesc.v) is the
+              model's assemble / save / load for ALL results and tower lists;
           (2) REAL round trips save_footprints_to_netcdf -> file -> load_footprints_from_netcdf over
               towers 1..4 x steps 1..4 x 2-D/3-D x key order {config, reversed, subset, shuffled} x
               {string, integer} timestamps x {ustar, z0} forcing with hostile field values; every
@@ -23,7 +26,8 @@ import numpy as np
 import core
 
 THEOREMS = ["C18_roundtrip", "C18_assembly", "C18_coords", "C18_labels", "C18_save_succeeds",
-            "C18_labels_orig_refuted", "C18_select"]
+            "C18_labels_orig_refuted", "C18_select",
+            "C18_fill_loop", "C18_fill_first", "C18_indexing", "C18_description_meaning"]
 TRUSTED = [
     "Model/NetcdfAsm.v is hand-written (repaired save_footprints_to_netcdf: array assembly, coordinate slicing, "
     "by-name tower metadata, met series, selection); tied to bldfm.io (A) by exact differential execution of real "
